@@ -41,7 +41,7 @@ def strategy(tier):
     return st.fixed_dictionaries({
         "module": G.module(p), "layout": G.layout_choices(24),
         "faults": st.lists(plan, min_size=1, max_size=2),
-        "mode": st.sampled_from(["file", "file", "file", "dir", "multi-first", "multi-middle", "subdir", "dir-twin", "multi-prefix"]),
+        "mode": st.sampled_from(["file", "file", "file", "dir", "multi-first", "multi-middle", "subdir", "dir-twin", "multi-prefix", "file-link", "dir-link"]),
         "flags": st.sampled_from(["default", "log-debug", "all-off", "some-off", "default", "log-file"]),
         "exhaustive": st.just(tier == "thorough"),
     })
@@ -131,6 +131,15 @@ def run_one(text, mode, res, kind, ctx, flags="default"):
             good.append(p_)
         if mode == "dir":
             argv = [inp, "-o", out]
+        elif mode == "file-link":
+            # the faulty module is handed in through a symbolic link
+            os.makedirs(sb.path("real"))
+            os.rename(bad, sb.path("real", "target.cmake"))
+            os.symlink(sb.path("real", "target.cmake"), bad)
+            argv = [bad, "-o", out]
+        elif mode == "dir-link":
+            os.symlink(inp, sb.path("linked_in"))
+            argv = [sb.path("linked_in"), "-o", out]
         elif mode == "subdir":
             # the faulty file sits in a subdirectory reached only in recursive mode
             os.makedirs(os.path.join(inp, "deeper"))
